@@ -28,7 +28,7 @@ fn main() {
         }
     }));
     match args[1].as_str() {
-        "script" => run_script(&args[2], &args[3], flag(&args, "--from").unwrap_or(0)),
+        "script" => run_script(&args[2], &args[3], flag(&args, "--from").unwrap_or(0), flag(&args, "--count").unwrap_or(usize::MAX)),
         x => {
             eprintln!("unknown subcommand {}", x);
             std::process::exit(2);
@@ -40,14 +40,14 @@ fn flag(args: &[String], name: &str) -> Option<usize> {
     args.iter().position(|a| a == name).and_then(|i| args.get(i + 1)).and_then(|v| v.parse().ok())
 }
 
-fn run_script(scn: &str, out: &str, from: usize) {
+fn run_script(scn: &str, out: &str, from: usize, count: usize) {
     let f = std::io::BufReader::new(std::fs::File::open(scn).expect("HARNESS: scenario file"));
     events::open(out);
     let mut tk = interp::Interp::<elems::Tk>::new();
     let mut pl = interp::Interp::<elems::Pl>::new();
     for (i, line) in f.lines().enumerate() {
         let line = line.unwrap();
-        if i < from || line.trim().is_empty() {
+        if i < from || i - from >= count || line.trim().is_empty() {
             continue;
         }
         let j: J = serde_json::from_str(&line).expect("HARNESS: scenario json");
